@@ -10,6 +10,7 @@
 import Cobweb.Proofs.Kill
 import Cobweb.Proofs.Watch
 import Cobweb.Proofs.Removed
+import Cobweb.Proofs.RemBuf
 import Cobweb.Theorems.C01
 import Cobweb.Exec
 
@@ -219,6 +220,30 @@ theorem frame_loses_nothing {p : Prog} {hh : Hist} {s0 s : St} (ty : Nat) (htr :
     (a poll) resets it. -/
 theorem only_clear_ages (p : Prog) (hh : Hist) {s s' : St} (ht : tick p hh s = some s') (hn : NotClear p hh s) (ty : Nat) :
     s'.removedOld ty ≤ s.removedOld ty := tick_old_le p hh ht hn ty
+
+/-! ### removals, for every execution: recorded once, kept until read, read completely -/
+
+/-- **A recorded removal stays in its buffer** — in every execution, a tick that neither runs a poll frame nor starts a
+    `clear_trackers` keeps every buffered removal event, in order, and only appends newer ones. -/
+theorem removal_events_kept (p : Prog) (hh : Hist) {s s' : St} (ht : tick p hh s = some s') (hn : NotClear p hh s) (hp : NotPoll s)
+    (ty : Nat) : ∃ l, s'.removedBuf ty = s.removedBuf ty ++ l := tick_ext p hh ht hn hp ty
+
+/-- **The tick that runs a poll frame reads every tracked buffer completely and leaves the others untouched.** -/
+theorem poll_tick_reads (p : Prog) (hh : Hist) {s s' : St} {rest : List Frame} (ht : tick p hh s = some s')
+    (hst : s.stack = Frame.poll :: rest) (ty : Nat) : s'.removedBuf ty = if ty ∈ s.tracked then [] else s.removedBuf ty :=
+  tick_poll p hh ht hst ty
+
+/-- One removal checker per component type, in every reachable state. -/
+theorem one_checker_per_type {p : Prog} {hh : Hist} {s : St} (hr : Reach p hh ({} : St) s) : s.tracked.Nodup :=
+  tracked_nodup_reach hr
+
+/-- **What a poll schedules for removals, in every reachable state**: for every tracked type (in checker order) and every
+    buffered removal of it (in the order recorded), one reaction per entity-scoped removal listener of that entity, then
+    one per type-wide removal listener — nothing else, nothing twice. -/
+theorem poll_removal_reactions_exact {p : Prog} {hh : Hist} {s : St} (hr : Reach p hh ({} : St) s) :
+    (pollRemovals s).2 = s.tracked.flatMap (fun ty => (s.removedBuf ty).flatMap (removalCmdsFor s ty)) ∧
+    ∀ ty e, C01.targets (removalCmdsFor s ty e) = entListeners s e ⟨.rem, ty⟩ ++ (s.tbl .rem ty).map (·.sys) :=
+  ⟨pollRemovals_cmds s (tracked_nodup_reach hr), fun ty e => removal_listeners s ty e⟩
 
 /-- Non-vacuity: one despawn reactor on a spawned entity, the entity is despawned by a plain command in a later operation
     (its death then waits on the channel), the end of the frame polls: the reaction runs once and nothing is left. -/
